@@ -866,6 +866,11 @@ func ruleRevalidate(c *RC) *RuleResult {
 		r.unresolved(fmt.Sprintf("re-validation routines (found %d, expected 2)", len(vr)))
 	}
 	n := 0
+	// a call that can verify nothing is harmless where the same handler re-validates the same table at a place where it
+	// can (after the proposal is stored): live[role+table]
+	live := map[string]bool{}
+	type deadCall struct{ role, table, where, msg string }
+	var dead []deadCall
 	for fn, table := range vr {
 		for _, cs := range c.A.callers[fn] {
 			n++
@@ -879,6 +884,7 @@ func ruleRevalidate(c *RC) *RuleResult {
 			}
 			if f := d.ProveAt(cs, g); f == nil {
 				r.ok(fmt.Sprintf("%s -> %s: header/pre-block obtainable at the call", cs.Fn.Name, fn.Name))
+				live[c.roleName(cs.Fn)+"|"+table] = true
 			} else {
 				// the construct names roles, not the helper the call happens to sit in: the function the caller serves
 				// (a message handler is named by its kind) and the table the routine re-validates
@@ -900,8 +906,16 @@ func ruleRevalidate(c *RC) *RuleResult {
 						}
 					}
 				}
-				r.fail(role+"->revalidate:"+table, c.Prog.Pos(cs.Node), cs.Fn.Name+" -> "+fn.Name+": "+"the re-validation call cannot verify anything in this state (no header/pre-block can be built): "+f.String())
+				dead = append(dead, deadCall{role, table, c.Prog.Pos(cs.Node), cs.Fn.Name + " -> " + fn.Name + ": " + "the re-validation call cannot verify anything in this state (no header/pre-block can be built): " + f.String()})
 			}
+		}
+	}
+	sort.Slice(dead, func(i, j int) bool { return dead[i].role+dead[i].table+dead[i].where < dead[j].role+dead[j].table+dead[j].where })
+	for _, dc := range dead {
+		if live[dc.role+"|"+dc.table] {
+			r.ok(fmt.Sprintf("%s: a call that can verify nothing (%s) is made good by a later re-validation of %s in the same handler", dc.role, dc.where, dc.table))
+		} else {
+			r.fail(dc.role+"->revalidate:"+dc.table, dc.where, dc.msg)
 		}
 	}
 	if n < 3 {
